@@ -497,7 +497,7 @@ pub fn run(ctx: &mut Ctx) {
             }
         }
     }
-    let n = ctx.budget(5_000, 1_200_000);
+    let n = ctx.budget(5_000, 2_400_000);
     for i in 0..n {
         let extended = i % 3 != 0;
         let opts = if extended { GenOpts::extended() } else { GenOpts::canonical() };
